@@ -11,6 +11,10 @@ CLAIMS = {
    text="Proof (Coq, finite and exhaustive): both tables are REGENERATED from ipfix/rfc5102_model.go and scripts/ipfix.elements on every run by the go/ast translator and the kernel decides by vm_compute reflection, for all 402 entries, that the two load paths yield the identical run-time map (ids, names, types), every entry is keyed by its own element id, every type name is recognised, keys are unique, and the tables equal the frozen registry snapshot. The translator and the model of LoadExtElements are validated each run against the evaluated Go InfoModel on both load paths.",
    note="Trusted: Coq kernel incl. vm_compute; translator extract/infomodel.go (validated each run against the evaluated Go objects); hand model load_ext of LoadExtElements (validated each run). Closed under the global context.",
    technique="Coq reflection (vm_compute) over tables regenerated from source by a go/ast translator"),
+ "C08": dict(
+   text="Proof (Coq): for every 24-octet header announcing 1..30 flows and that many 48-octet records with ANY field values and ANY trailing octets, decode(encode h flows ++ trailing) returns the header fields and exactly those flows in wire order, every field its big-endian value (round trip against an encoder written from Cisco's documented format); any other version, count outside 1..30 or too few octets yields no flows; no datagram panics/hangs and flows <= 30 with 48 received octets each. The field sequences and JSON piece sequences are REGENERATED from netflow/v5/*.go on every run and Proofs/Tie.v re-proves them equal to the tables the proofs use; the hand-modelled control flow is tied by differential execution (Go Decode+JSONMarshal vs extracted model) plus an independent Python oracle that also parses the published JSON (dotted addresses, exact numbers).",
+   note="Trusted: Coq kernel; translator for layouts/JSON pieces (tie re-proved each run); hand model of validate/decodeFlows/publish decision (correspondence); Spec/Nf5Wire.v; net.IP.String model (sampled). JSON well-formedness of the v5 output is proved under C05. Closed under the global context.",
+   technique="Coq round-trip proof (decode o encode) over regenerated layouts + differential correspondence"),
 }
 REASON_TODO = "check under construction in this build session (not yet claimed)"
 props = [json.loads(l) for l in open(os.path.join(ROOT, "properties.jsonl"))]
